@@ -7,7 +7,7 @@ patch=$(readlink -f "$1"); id=$2; tier=${3:-quick}; shift; shift; shift
 wt=$(mktemp -d /tmp/seedwt_XXXXXX)
 rmdir "$wt"
 git -C /repo worktree add --detach "$wt" HEAD >/dev/null 2>&1 || { echo "worktree failed"; exit 9; }
-if ! git -C "$wt" apply "$patch"; then echo "SEED $id patch does not apply"; git -C /repo worktree remove --force "$wt"; exit 9; fi
+if ! git -C "$wt" apply "$patch" 2>/dev/null && ! git -C "$wt" apply --3way "$patch" 2>/dev/null; then echo "SEED $id patch does not apply"; git -C /repo worktree remove --force "$wt"; exit 9; fi
 cd "$(dirname "$0")/.."
 log=$(mktemp /tmp/seedlog_XXXXXX)
 VT_REPO="$wt" VT_EVIDENCE_DIR="$wt/_ev" ./check "$id" --tier "$tier" "$@" > "$log" 2>&1
